@@ -132,6 +132,11 @@ pub async fn run_socket_worker(
     let mut incoming = listener.incoming();
 
     while let Some(stream) = incoming.next().await {
+        #[cfg(feature = "verif-hooks")]
+        if aquatic_common::verif_hooks::fault_point("socket") {
+            return Ok(());
+        }
+
         match stream {
             Err(err) => {
                 ::log::error!("accept connection: {:#}", err);
